@@ -8,10 +8,10 @@ import apigen, c_api
 
 W = dict
 STRUCT = dict(n_defs=(4, 14), n_txn=(1, 6), n_listen=(0, 3), drops=0.8, gcs=0.5, graphdumps=0.5, weak=0.3, unlisten=0.3,
-              no_once=True, no_const=True, distinct_routes=True, drop_listeners=0.3, max_defer=2, samples=0.2, intxn_defs=0.2, obs=0.0,
-              weights=W(const=0, once=0, switchs=0, switchc=0, switchdyn=0, sloop=1.5, cloop=1.5, router=1, defer=1, split=0.5,
+              no_once=False, no_const=True, distinct_routes=True, drop_listeners=0.3, max_defer=2, samples=0.2, intxn_defs=0.2, obs=0.0,
+              weights=W(const=0, once=1.5, switchs=0, switchc=0, switchdyn=0, sloop=1.5, cloop=1.5, router=1, defer=1, split=0.5,
                         holdlazy=0.5, accum=2, collect=1.5, accumlazy=0.7, collectlazy=0.5, lift2=2, lift2d=1.5, liftn=0.7, snapshotn=0.7, gate=1.5, value=1.5, updates=1.5))
-# construction only (no events): `once` behaves like any unary node until it fires
+# construction only (no events)
 STATIC = dict(STRUCT, n_txn=(0, 0), no_once=False, weights=W(STRUCT["weights"], once=1.5, value=0))
 
 
@@ -33,7 +33,7 @@ def gen(tier, seed, pid):
         kw["leakcheck"] = (k % 3 == 0)
         out.append(apigen.generate(rng, apigen.profile(**kw)))
     import apienum
-    out += list(apienum.programs(3 if tier == "thorough" else 2, kinds=apienum.STRUCT_KINDS + ["switchs", "switchc"], mode="struct"))
+    out += list(apienum.programs(3 if tier == "thorough" else 2, kinds=apienum.STRUCT_KINDS + ["once", "switchs", "switchc"], mode="struct"))
     return out
 
 
